@@ -72,6 +72,10 @@ func main() {
 		return
 	}
 	e.findingViaPrecompile()
+	if getenv("VERIF_PROBE") == "outcall" {
+		e.outcallProbe()
+		return
+	}
 
 	var bc, att, gv, rc []string
 	// fixed corpus first (replays of the model's witnesses), then generated cases
